@@ -550,6 +550,7 @@ def main():
 
     out.append("end Gen\nend Shexer\n")
     changed_s = string_fragment(report, uri, shape)
+    model_fingerprints(report)
     text = apply_fallbacks("\n".join(out))
     changed = True
     if os.path.exists(OUT):
@@ -565,6 +566,71 @@ def main():
     for k, v in sorted(report.items()):
         if v.startswith('UNTRANSLATABLE'):
             print("UNTRANSLATABLE", k, v)
+
+
+# hand-written Lean definitions and the Python functions they mirror (modelled, not verified): the extractor records a
+# fingerprint of each function's AST so that evidence files say which version of the code every model was compared with
+MODELLED = {
+    "Model/Tracker.lean": [("shexer/core/instances/instance_tracker.py", "InstanceTracker", "track_instances"),
+                           ("shexer/core/instances/annotators/base_annotator.py", "BaseAnnotator", "_get_proper_strategy")],
+    "Model/Profiler.lean": [("shexer/core/profiling/class_profiler.py", "ClassProfiler", "profile_classes"),
+                            ("shexer/core/profiling/strategy/abstract_feature_direction_strategy.py", "AbstractFeatureDirectionStrategy", "_annotate_target_subject"),
+                            ("shexer/core/profiling/strategy/abstract_feature_direction_strategy.py", "AbstractFeatureDirectionStrategy", "_introduce_needed_elements_in_shape_instances_dict_for_subj"),
+                            ("shexer/core/profiling/strategy/abstract_feature_direction_strategy.py", "AbstractFeatureDirectionStrategy", "_infer_valid_cardinalities")],
+    "Model/Shexer.lean, Model/MergeE.lean": [("shexer/core/shexing/class_shexer.py", "ClassShexer", "shex_classes"),
+                          ("shexer/core/shexing/strategy/abstract_shexing_strategy.py", "AbstractShexingStrategy", "_group_constraints_with_same_prop_and_obj"),
+                          ("shexer/core/shexing/strategy/abstract_shexing_strategy.py", "AbstractShexingStrategy", "_decide_best_statement_with_cardinalities_in_comments"),
+                          ("shexer/core/shexing/strategy/abstract_shexing_strategy.py", "AbstractShexingStrategy", "_group_node_constraints"),
+                          ("shexer/core/shexing/strategy/abstract_shexing_strategy.py", "MergeableConstraints", "merge_group"),
+                          ("shexer/core/shexing/strategy/abstract_shexing_strategy.py", "MergeableConstraints", "_bnode_merging_strategy"),
+                          ("shexer/core/shexing/strategy/abstract_shexing_strategy.py", "MergeableConstraints", "_no_bnode_merging_strategy"),
+                          ("shexer/core/shexing/strategy/abstract_shexing_strategy.py", "MergeableConstraints", "_tune_dominant_constraint_wrt_or_config"),
+                          ("shexer/core/shexing/class_shexer.py", "ClassShexer", "_clean_empty_shapes")],
+    "Model/Nt.lean": [("shexer/io/graph/yielder/nt_triples_yielder.py", "NtTriplesYielder", "yield_triples"),
+                      ("shexer/io/graph/yielder/nt_triples_yielder.py", "NtTriplesYielder", "_look_for_tokens"),
+                      ("shexer/io/graph/yielder/nt_triples_yielder.py", "NtTriplesYielder", "_look_for_last_index_before_blank"),
+                      ("shexer/io/graph/yielder/nt_triples_yielder.py", "NtTriplesYielder", "_look_for_last_index_of_literal_token"),
+                      ("shexer/io/graph/yielder/nt_triples_yielder.py", "NtTriplesYielder", "_look_for_index_of_closing_quotes"),
+                      ("shexer/utils/triple_yielders.py", None, "tune_token"), ("shexer/utils/triple_yielders.py", None, "tune_prop")],
+    "Model/Ttl.lean": [("shexer/io/graph/yielder/big_ttl_triples_yielder.py", "BigTtlTriplesYielder", n) for n in (
+        "yield_triples", "_clean_line", "_remove_comments_if_needed", "_process_line_2", "_process_line_with_potential_triples",
+        "_assing_tmp_element_and_promote_state", "_next_line_token", "_find_next_blank", "_find_next_unescaped_quotes",
+        "_find_next_quoted_literal_ending", "_process_prefix_line", "_process_base_line", "_parse_elem",
+        "_expand_prefixed_datatype_if_needed", "_parse_cornered_element")] + [("shexer/utils/triple_yielders.py", None, "tune_subj")],
+    "Model/Tsv.lean": [("shexer/io/graph/yielder/tsv_nt_triples_yielder.py", "TsvNtTriplesYielder", "yield_triples"),
+                       ("shexer/io/graph/yielder/multifile_base_triples_yielder.py", "MultifileBaseTripleYielder", "yield_triples")],
+    "Model/History.lean": [("shexer/shaper.py", "Shaper", "shex_graph"), ("shexer/shaper.py", "Shaper", "profile_graph"),
+                           ("shexer/io/shex/formater/shex_serializer.py", "ShexSerializer", "_write_line"),
+                           ("shexer/io/shex/formater/shex_serializer.py", "ShexSerializer", "_write_lines_buffer")],
+    "Model/Endpoint.lean": [("shexer/model/graph/endpoint_sgraph.py", "EndpointSGraph", n) for n in (
+        "_yield_local_p_o_triples_of_an_s", "_yield_local_s_p_triples_of_an_o", "_yield_local_class_triples_of_an_s")] + [
+        ("shexer/model/graph/abstract_sgraph.py", "SGraph", "yield_p_o_triples_of_target_nodes"),
+        ("shexer/model/graph/abstract_sgraph.py", "SGraph", "yield_s_p_triples_of_target_nodes"),
+        ("shexer/io/graph/yielder/remote/sgraph_from_selectors_triple_yielder.py", "SgraphFromSelectorsTripleYielder", "_yield_relevant_sgraph_triples")],
+    "Model/MinIri.lean": [("shexer/core/profiling/class_profiler.py", "ClassProfiler", "_update_shape_min_iri"),
+                          ("shexer/utils/uri.py", None, "longest_common_prefix"),
+                          ("shexer/core/shexing/strategy/minimal_iri_strategy/annotate_min_iri_strategy.py", "AnnotateMinIriStrategy", "_determine_suitable_iri_pattern")],
+    "Model/Text.lean": [("shexer/utils/namespaces.py", None, "find_adequate_prefix_for_shapes_namespaces"),
+                        ("shexer/utils/uri.py", None, "prefixize_uri_if_possible")],
+    "Model/Shacl.lean": [("shexer/io/shacl/formater/shacl_serializer.py", "ShaclSerializer", n) for n in (
+        "_add_shape", "_add_regular_constraint", "_add_instantiation_constraint", "_add_node_type", "_add_cardinality")],
+    "Model/Targets.lean": [("shexer/io/shape_map/shape_map_parser.py", None, None)],
+    "Model/CountE.lean": [("shexer/core/profiling/strategy/abstract_feature_direction_strategy.py", "AbstractFeatureDirectionStrategy", "_introduce_needed_elements_in_shape_classes_dict"),
+                          ("shexer/core/profiling/strategy/include_reverse_features_strategy.py", "IncludeReverseFeaturesStrategy", "init_annotated_targets")],
+}
+
+
+def model_fingerprints(report):
+    import hashlib
+    for lean_file, funcs in MODELLED.items():
+        for rel, cls, name in funcs:
+            key = "modelled:%s <- %s:%s%s" % (lean_file, rel, (cls + ".") if cls else "", name or "*")
+            try:
+                tree = parse(rel)
+                node = tree if name is None else find_func(tree, name, cls)
+                report[key] = "sha1:" + hashlib.sha1(ast.dump(node).encode()).hexdigest()[:12]
+            except (Untranslatable, OSError, SyntaxError) as e:
+                report[key] = "MISSING: " + str(e)[:80]
 
 
 def string_fragment(report, uri_consts, shape_consts):
